@@ -370,7 +370,7 @@ def run():
                               {'kind': 'impl', 'q': q.tolist(), 'grid': g.tolist(), 'feq': e.tolist()})
 
     # ---------------- (b) simulated MPI
-    shapes = [[8, 8, 8, 8], [9, 7, 10, 8]] if quick else [[8, 8, 8, 8], [9, 7, 10, 8], [7, 9, 6, 11], [12, 8, 9, 10]]
+    shapes = [[8, 8, 8, 8], [9, 7, 10, 8]] if quick else [[8, 8, 8, 8], [9, 7, 10, 8], [7, 9, 8, 11], [12, 8, 9, 10]]
     grids = [(1, 1), (1, 2), (2, 1), (2, 2), (3, 2), (2, 3), (1, 4), (4, 1)] if quick else \
             [(1, 1), (1, 2), (2, 1), (2, 2), (3, 2), (2, 3), (1, 4), (4, 1), (3, 1), (1, 3), (3, 3), (4, 2), (2, 4), (5, 1), (6, 1), (7, 1)]
     mcases = []
